@@ -78,19 +78,21 @@ def case_text(trace, case_id, upto_op=None):
     return "\n".join(out) + "\n"
 
 
-def run_sharded(ctx, sub, shards, args_of, timeout):
+def run_sharded(ctx, sub, shards, args_of, timeout, oracle_mode=None):
     """Run harness subcommand `sub` in parallel shards -> trace files; then the oracle on each. Returns list of
     (trace path, oracle output)."""
     def one(i):
         trace = os.path.join(ctx.dir, "%s.%d.trace" % (sub, i))
-        cmd = [C.harness_exe(), sub, "-out", trace, "-tier", ctx.tier] + args_of(i)
+        sdir = os.path.join(ctx.dir, "d%d" % i)
+        os.makedirs(sdir, exist_ok=True)
+        cmd = [C.harness_exe(), sub, "-out", trace, "-tier", ctx.tier] + [a.replace("{dir}", sdir) for a in args_of(i)]
         try:
             p = subprocess.run(cmd, stdout=subprocess.PIPE, stderr=subprocess.STDOUT, text=True, timeout=timeout, errors="replace")
             hout, hrc = p.stdout, p.returncode
         except subprocess.TimeoutExpired as e:
             hout, hrc = "harness timeout: " + str(e), 124
         try:
-            q = subprocess.run([C.oracle_exe(), sub, trace], stdout=subprocess.PIPE, stderr=subprocess.STDOUT, text=True, timeout=timeout, errors="replace")
+            q = subprocess.run([C.oracle_exe(), oracle_mode or sub, trace], stdout=subprocess.PIPE, stderr=subprocess.STDOUT, text=True, timeout=timeout, errors="replace")
             oout, orc = q.stdout, q.returncode
         except subprocess.TimeoutExpired as e:
             oout, orc = "oracle timeout", 124
@@ -161,4 +163,49 @@ def c09(ctx):
     return res
 
 
-PLUGINS = {"C09": c09}
+
+def _hist(ctx, mode, img, rule, n_quick, n_thorough, as_propfail=False):
+    res = Result()
+    res.rule = rule
+    with ctx:
+        if ctx.replay:
+            runs = run_sharded(ctx, "c04", 1, lambda i: ["-replay", ctx.replay, "-img", img, "-dir", "{dir}"], 900, oracle_mode=mode)
+        else:
+            shards = 8 if ctx.tier == "quick" else 16
+            n = n_quick if ctx.tier == "quick" else n_thorough
+            tmo = 900 if ctx.tier == "quick" else (ctx.budget_s or 3000)
+            runs = run_sharded(ctx, "c04", shards, lambda i: ["-seed", str(ctx.seed * 1000 + i), "-n", str(n // shards), "-img", img,
+                                                             "-dir", "{dir}"] + (["-txs", "40", "-ops", "40"] if ctx.tier == "thorough" and i % 4 == 0 else []),
+                               tmo, oracle_mode=mode)
+        for r in runs:
+            absorb(res, ctx.pid, *r)
+    if as_propfail:   # the model IS the property's reference: a disagreement is a concrete failing input
+        res.propfails += res.mismatches
+        res.mismatches = []
+    return res
+
+
+HIST_RULE = ("model-guided random API histories (2-14 transactions of up to 12 calls, bursts of 48; puts/deletes/gets over re-used keys, "
+             "bucket create/delete/move at depth <= 4, sequences, values from 0 bytes to several pages, readers held open, rollbacks, reopenings, "
+             "a malformed stream) over page sizes 1024-16384, both freelist backends, freelist-sync and grow-sync on/off; distinct by MD5 of the op list; "
+             "non-trivial if the case hit at least one structural event or error branch (flags listed under events)")
+
+
+def c04(ctx):
+    """C04 nested ordered map: every API result and every dump of the implementation vs Spec.v.
+    Assumes: root bucket reached only through Tx methods; bucket names <= 32768 bytes; D4's domain (move into own subtree) is excluded from generation."""
+    return _hist(ctx, "c04", "none", HIST_RULE, 400, 30000, as_propfail=True)
+
+
+def c07(ctx):
+    """C07 page accounting: after every commit the file bytes are decoded by the extracted Coq reader (Layout.v) and
+    Layout.accounted / key order / element bounds / file length are evaluated; Tx.Check must be clean at the end of every history."""
+    return _hist(ctx, "c07", "commit", HIST_RULE + "; one file image per commit", 240, 16000)
+
+
+def c12(ctx):
+    """C12 format: every file image is decoded by the extracted independent reader and compared with the API dump taken just before the commit."""
+    return _hist(ctx, "c12", "commit", HIST_RULE + "; one file image per commit", 240, 16000)
+
+
+PLUGINS = {"C09": c09, "C04": c04, "C07": c07, "C12": c12}
